@@ -39,7 +39,10 @@ RULE = ('cases: REL/RELA tables (both classes, byte orders, MIPS64, 0..many entr
         'num_relocations / get_relocation(n) / complete walks, every answer compared; sequences of get_dwarf_info(relocate '
         'in {True, False}) / RelocationHandler calls on ONE ELFFile object (TT, TF, FT, FFT, random; REL flavours twice as '
         'often), every call against the stateless reference, earlier streams re-read at the end, file image unchanged; '
-        'relocation application '
+        'all-zero entries (R_*_NONE, symbol 0, offset 0) as only / first / middle / last / run / several entries of every '
+        'flavour incl. MIPS64, in sections, raw tables, histories and dynamic tables, iteration compared with indexing; '
+        'dynamic images where [DT_REL[A], +SZ) contains / abuts / partially overlaps / equals / lies inside [DT_JMPREL, '
+        '+DT_PLTRELSZ) (same flavour), each table being what its own tags say; relocation application '
         'on synthesized relocatable images for every (machine, flavour, type) with random S/A/V, overlapping and boundary '
         'offsets, error classes, relocation on/off, via get_dwarf_info and via RelocationHandler. distinct = hash(kind, '
         'abstract); non-trivial = at least one entry/word/relocation or an error case')
@@ -486,6 +489,101 @@ def gen_apply_seq(ctx, cases):
             cases.append(('apply_seq', [em, le, is64, calls, data, symvals, rsecs, gap]))
 
 
+def zero_entry(rng, is64, rela):
+    """R_*_NONE against symbol 0 at offset 0: r_offset == 0 and r_info == 0 (for MIPS64 every sub-field 0); a RELA
+    entry may still carry an addend"""
+    add = rng.choice([0, 0, _rand_signed(rng, 64 if is64 else 32)]) if rela else 0
+    return [0, 0, 0, add, 0, 0, 0]
+
+
+def with_zero_entries(rng, is64, mips64, rela, where):
+    """an entry list holding all-zero entries at the named places"""
+    body = [gen_entry(rng, is64, mips64, rela) for _ in range(rng.randint(2, 6))]
+    z = lambda: zero_entry(rng, is64, rela)
+    if where == 'only':
+        return [z()]
+    if where == 'first':
+        return [z()] + body
+    if where == 'last':
+        return body + [z()]
+    if where == 'middle':
+        k = rng.randint(1, len(body) - 1)
+        return body[:k] + [z()] + body[k:]
+    if where == 'run':
+        k = rng.randint(0, len(body))
+        return body[:k] + [z(), z(), z()] + body[k:]
+    return [z()] + body[:1] + [z()] + body[1:] + [z()]          # 'several'
+
+
+def gen_zero_entries(ctx, cases):
+    """all-zero entries are entries: tables (section / raw), histories on one object, dynamic tables"""
+    rng = ctx.rng
+    places = ['only', 'first', 'middle', 'last', 'run', 'several']
+    for le in (True, False):
+        for is64 in (True, False):
+            for em in (EM['X64'] if is64 else EM['X86'], EM['MIPS'], EM['ARM']):
+                mips64 = is64 and em == EM['MIPS']
+                for rela in (True, False):
+                    for i, where in enumerate(places):
+                        for _ in range(ctx.scale(1, 6)):
+                            ents = with_zero_entries(rng, is64, mips64, rela, where)
+                            gap = bytes(rng.randrange(1, 256) for _ in range(rng.choice([0, 1, 3, 7])))
+                            via = rng.choice(['section', 'section', 'raw'])
+                            slack = rng.randrange(entsize_of(is64, rela)) if via == 'raw' else 0
+                            cases.append(('table', [le, is64, em, rela, ents, gap, via, slack]))
+                            if i % 2 == (1 if rela else 0):
+                                h = gen_history(rng, len(ents)) + [['iter'], ['num']] + \
+                                    [['get', j] for j in range(len(ents))]
+                                cases.append(('rel_hist', [le, is64, em, rela, ents, gap, via, slack, h]))
+            for em in (EM['X64'] if is64 else EM['X86'], EM['MIPS']):
+                mips64 = is64 and em == EM['MIPS']
+                for _ in range(ctx.scale(3, 20)):
+                    tables = []
+                    for kind in ('REL', 'RELA', 'JMPREL'):
+                        if rng.random() < 0.75:
+                            rela = {'REL': False, 'RELA': True}.get(kind, rng.random() < 0.5)
+                            tables.append([kind, rela, with_zero_entries(rng, is64, mips64, rela, rng.choice(places))])
+                    cases.append(('dyn', [le, is64, em, tables, 'none', rng.choice(['segment', 'section']),
+                                          rng.randrange(1 << 16)]))
+
+
+def gen_dyn_overlap(ctx, cases):
+    """the main REL/RELA table and the JMPREL table of the same flavour as index ranges [m0,m1) and [j0,j1) of ONE run
+    of entries in the file: [DT_REL[A], +DT_REL[A]SZ) contains / abuts / partially overlaps / equals / lies inside
+    [DT_JMPREL, +DT_PLTRELSZ).  Each table is what its own tags say."""
+    rng = ctx.rng
+    for le in (True, False):
+        for is64 in (True, False):
+            for em in (EM['X64'] if is64 else EM['X86'], EM['MIPS']):
+                mips64 = is64 and em == EM['MIPS']
+                for rela in (True, False):
+                    for shape in ('main_contains_tail', 'main_contains_middle', 'main_contains_head', 'abuts',
+                                  'jmprel_first_abuts', 'partial', 'partial_rev', 'equal', 'jmprel_contains_main',
+                                  'disjoint'):
+                        for _ in range(ctx.scale(1, 5)):
+                            n = rng.randint(4, 9)
+                            a, b = sorted(rng.sample(range(1, n), 2))
+                            m, j = {
+                                'main_contains_tail': ((0, n), (a, n)),
+                                'main_contains_middle': ((0, n), (a, b)),
+                                'main_contains_head': ((0, n), (0, a)),
+                                'abuts': ((0, a), (a, n)),
+                                'jmprel_first_abuts': ((a, n), (0, a)),
+                                'partial': ((0, b), (a, n)),
+                                'partial_rev': ((a, n), (0, b)),
+                                'equal': ((0, n), (0, n)),
+                                'jmprel_contains_main': ((a, b), (0, n)),
+                                'disjoint': ((0, a), (b, n)),
+                            }[shape]
+                            if rng.random() < 0.3:
+                                ents = with_zero_entries(rng, is64, mips64, rela, 'several')
+                                ents = (ents + [gen_entry(rng, is64, mips64, rela) for _ in range(n)])[:n]
+                            else:
+                                ents = [gen_entry(rng, is64, mips64, rela) for _ in range(n)]
+                            cases.append(('dyn_overlap', [le, is64, em, rela, ents, list(m), list(j), shape,
+                                                          rng.choice(['segment', 'section']), rng.randrange(1 << 16)]))
+
+
 def gen(ctx):
     cases = []
     gen_tables(ctx, cases)
@@ -494,6 +592,8 @@ def gen(ctx):
     gen_dyn(ctx, cases)
     gen_hist(ctx, cases)
     gen_apply_seq(ctx, cases)
+    gen_zero_entries(ctx, cases)
+    gen_dyn_overlap(ctx, cases)
     return cases
 
 
@@ -556,6 +656,13 @@ def evaluate(ctx, cases):
             w.h_rs = [b1.add(['enc_table', le, is64, mips64, r[2], r[3]]) for r in rsecs]
             w.h_rwf = [b1.add(['rents_wf', is64, mips64, r[2], r[3]]) for r in rsecs]
             w.h_syms = [b1.add(['enc_sym', le, is64, 0, v]) for v in symvals]
+        elif kind == 'dyn_overlap':
+            le, is64, em, rela, ents, m, j, shape, via, order = a
+            mips64 = is64 and em == EM['MIPS']
+            w.h_enc = b1.add(['enc_table', le, is64, mips64, rela, ents])
+            w.h_wf = b1.add(['rents_wf', is64, mips64, rela, ents])
+            w.h_vm = b1.add(['spec_view', is64, mips64, rela, ents[m[0]:m[1]]])
+            w.h_vj = b1.add(['spec_view', is64, mips64, rela, ents[j[0]:j[1]]])
         elif kind == 'dyn':
             le, is64, em, tables, quirk, via, order = a
             mips64 = is64 and em == EM['MIPS']
@@ -688,6 +795,8 @@ def evaluate(ctx, cases):
             _eval_apply_seq(ctx, w, b1, b2)
         elif kind == 'dyn':
             _eval_dyn(ctx, w, b1, b2, drv)
+        elif kind == 'dyn_overlap':
+            _eval_dyn_overlap(ctx, w, b1, drv)
 
 
 def _eval_table(ctx, w, b1, b2):
@@ -1008,87 +1117,135 @@ def _assemble_dyn(w, b1, b2):
     w.ntags = ntags
 
 
-def _eval_dyn(ctx, w, b1, b2, drv):
+def _dyn_image(le, is64, em, secs, segs):
+    """the image with its PT_LOAD widened to cover the whole file (address = BASE_VADDR + file offset)"""
+    img, offs = build_elf(le, is64, em, 3, secs, segs, gap=b'\x99')
+    img = bytearray(img)
+    full_load = phdr(le, is64, 1, 4, 0, BASE_VADDR, len(img), len(img))
+    phoff = struct.unpack_from(('<' if le else '>') + ('Q' if is64 else 'I'), img, 32 if is64 else 28)[0]
+    img[phoff:phoff + len(full_load)] = full_load
+    return bytes(img), offs
+
+
+def _dyn_run(img, via, order):
     from elftools.elf.dynamic import DynamicSegment, DynamicSection
+    elf = _open(img)
+    if via == 'segment':
+        dyn = [s for s in elf.iter_segments() if isinstance(s, DynamicSegment)][0]
+    else:
+        dyn = elf.get_section_by_name('.dynamic')
+        assert isinstance(dyn, DynamicSection)
+    out = []
+    for k, t in dyn.get_relocation_tables().items():
+        # a client that peeks at the first entries and stops (suspended or closed walk) before the table is
+        # read: by C08_relr_history_exact / C08_rel_history_exact this changes no answer
+        try:
+            it = t.iter_relocations()
+            for _ in range(order % 3):
+                next(it, None)
+            if order & 4:
+                it.close()
+        except Exception:       # noqa: the full read below reports the error
+            pass
+        if k == 'RELR':
+            n = t.num_relocations()
+            offs = [r['r_offset'] for r in t.iter_relocations()]
+            assert n == len(offs) and [t.get_relocation(i)['r_offset'] for i in range(n)] == offs
+            out.append([k, 'relr', offs])
+        else:
+            res = _table_result(t)
+            # random access agrees with iteration, entry for entry
+            assert [entry_items(t.get_relocation(i)) for i in range(res[1])] == res[2]
+            out.append([k] + res)
+    return ok(out)
+
+
+def _dyn_model(drv, le, is64, em, tags, img):
+    """model: descriptors from the tag list, then the table models on the image"""
+    desc = drv.one(['model_dyn', le, is64, em, [[t, v] for t, v in tags], [[0, BASE_VADDR, len(img)]]])
+    if desc[0] != 'ok':
+        return desc
+    reqs = []
+    for d in desc[1]:
+        if d[0] == 'RELR':
+            reqs.append(['model_relr', le, is64, img, d[1] if d[1] != 'none' else 0, d[2], d[3]])
+        else:
+            reqs += [['model_table', le, is64, em, d[3], img, d[1] if d[1] != 'none' else 0, d[2]],
+                     ['model_num', le, is64, em, d[3], d[2]]]
+    ans = drv.batch(reqs)
+    model_out = []
+    i = 0
+    failed = None
+    for d in desc[1]:
+        if d[1] == 'none':
+            failed = ['err', 'TypeError']          # None + n * entry_size
+            if d[0] == 'RELR' and d[2] == 0:
+                failed = None
+        if d[0] == 'RELR':
+            r = ans[i]; i += 1
+            if failed is None and r[0] != 'ok':
+                failed = r
+            model_out.append([d[0], 'relr', r[1] if r[0] == 'ok' else []])
+        else:
+            r, n = ans[i], ans[i + 1]; i += 2
+            if d[1] == 'none' and n == 0:
+                failed = None
+                r = ['ok', []]
+            if failed is None and r[0] != 'ok':
+                failed = r
+            model_out.append([d[0], d[3], n, r[1] if r[0] == 'ok' else []])
+    return failed if failed is not None else ok(model_out)
+
+
+def _eval_dyn_overlap(ctx, w, b1, drv):
+    import random
+    le, is64, em, rela, ents, m, j, shape, via, order = w.a
+    rng = random.Random(order)
+    wsz = 8 if is64 else 4
+    es = entsize_of(is64, rela)
+    blob = b1[w.h_enc]
+    ntags = 10
+
+    def layout(dyn_bytes):
+        secs = [dict(name='.dynstr', type=3, data=b'\0libx\0', flags=2),
+                dict(name='.rel.all', type=1, data=blob, flags=2),
+                dict(name='.dynamic', type=6, data=dyn_bytes, link=1, entsize=2 * wsz, flags=3)]
+        return secs, [(1, (0, 0), BASE_VADDR), (2, 3, 0)]
+
+    secs, segs = layout(b'\0' * (ntags * 2 * wsz))
+    _, offs = build_elf(le, is64, em, 3, secs, segs, gap=b'\x99')
+    base = BASE_VADDR + offs[2]
+    main = [(DT['RELA'], base + m[0] * es), (DT['RELASZ'], (m[1] - m[0]) * es), (DT['RELAENT'], es)] if rela else \
+           [(DT['REL'], base + m[0] * es), (DT['RELSZ'], (m[1] - m[0]) * es), (DT['RELENT'], es)]
+    tags = main + [(DT['JMPREL'], base + j[0] * es), (DT['PLTRELSZ'], (j[1] - j[0]) * es),
+                   (DT['PLTREL'], DT['RELA'] if rela else DT['REL']),
+                   (DT['STRTAB'], BASE_VADDR + offs[1]), (DT['STRSZ'], 6), (DT['DEBUG'], 0)]
+    rng.shuffle(tags)
+    tags.append((0, 0))
+    dyn_bytes = b''.join(drv.batch([['enc_dyn', le, is64, t, v] for t, v in tags]))
+    secs, segs = layout(dyn_bytes)
+    img, offs2 = _dyn_image(le, is64, em, secs, segs)
+    assert offs2 == offs and len(dyn_bytes) == ntags * 2 * wsz
+    impl = impl_call(_dyn_run, img, via, order)
+    model = _dyn_model(drv, le, is64, em, tags, img)
+    spec = ok([['RELA' if rela else 'REL', int(rela), m[1] - m[0], b1[w.h_vm]],
+               ['JMPREL', int(rela), j[1] - j[0], b1[w.h_vj]]])
+    ctx.bump('dyn_overlap', shape)
+    ctx.record('dyn_overlap', w.a, impl=impl, spec=spec, model=model, in_domain=b1[w.h_wf] == 1, nontrivial=True,
+               key='dyn-overlap')
+
+
+def _eval_dyn(ctx, w, b1, b2, drv):
     le, is64, em, tables, quirk, via, order = w.a
     wsz = 8 if is64 else 4
     enc = drv.batch([['enc_dyn', le, is64, t, v] for t, v in w.tags])
     dyn_bytes = b''.join(enc)
     dyn_bytes += b'\0' * (w.ntags * 2 * wsz - len(dyn_bytes))
     secs, segs = w.layout(dyn_bytes)
-    img, offs = build_elf(le, is64, em, 3, secs, segs, gap=b'\x99')
+    img, offs = _dyn_image(le, is64, em, secs, segs)
     assert offs == w.tables_offs
-    # the PT_LOAD segment covers the whole file
-    img = bytearray(img)
-    full_load = phdr(le, is64, 1, 4, 0, BASE_VADDR, len(img), len(img))
-    eh = 64 if is64 else 52
-    phoff = struct.unpack_from(('<' if le else '>') + ('Q' if is64 else 'I'), img, 32 if is64 else 28)[0]
-    img[phoff:phoff + len(full_load)] = full_load
-    img = bytes(img)
-
-    def run():
-        elf = _open(img)
-        if via == 'segment':
-            dyn = [s for s in elf.iter_segments() if isinstance(s, DynamicSegment)][0]
-        else:
-            dyn = elf.get_section_by_name('.dynamic')
-            assert isinstance(dyn, DynamicSection)
-        out = []
-        for k, t in dyn.get_relocation_tables().items():
-            # a client that peeks at the first entries and stops (suspended or closed walk) before the table is
-            # read: by C08_relr_history_exact / C08_rel_history_exact this changes no answer
-            try:
-                it = t.iter_relocations()
-                for _ in range(order % 3):
-                    next(it, None)
-                if order & 4:
-                    it.close()
-            except Exception:       # noqa: the full read below reports the error
-                pass
-            if k == 'RELR':
-                n = t.num_relocations()
-                offs = [r['r_offset'] for r in t.iter_relocations()]
-                assert n == len(offs) and [t.get_relocation(i)['r_offset'] for i in range(n)] == offs
-                out.append([k, 'relr', offs])
-            else:
-                out.append([k] + _table_result(t))
-        return ok(out)
-    impl = impl_call(run)
-    # model: descriptors from the tag list, then the table models on the image
-    desc = drv.one(['model_dyn', le, is64, em, [[t, v] for t, v in w.tags], [[0, BASE_VADDR, len(img)]]])
-    if desc[0] == 'ok':
-        reqs = []
-        for d in desc[1]:
-            if d[0] == 'RELR':
-                reqs.append(['model_relr', le, is64, img, d[1] if d[1] != 'none' else 0, d[2], d[3]])
-            else:
-                reqs += [['model_table', le, is64, em, d[3], img, d[1] if d[1] != 'none' else 0, d[2]],
-                         ['model_num', le, is64, em, d[3], d[2]]]
-        ans = drv.batch(reqs)
-        model_out = []
-        i = 0
-        failed = None
-        for d in desc[1]:
-            if d[1] == 'none':
-                failed = ['err', 'TypeError']          # None + n * entry_size
-                if d[0] == 'RELR' and d[2] == 0:
-                    failed = None
-            if d[0] == 'RELR':
-                r = ans[i]; i += 1
-                if failed is None and r[0] != 'ok':
-                    failed = r
-                model_out.append([d[0], 'relr', r[1] if r[0] == 'ok' else []])
-            else:
-                r, n = ans[i], ans[i + 1]; i += 2
-                if d[1] == 'none' and n == 0:
-                    failed = None
-                    r = ['ok', []]
-                if failed is None and r[0] != 'ok':
-                    failed = r
-                model_out.append([d[0], d[3], n, r[1] if r[0] == 'ok' else []])
-        model = failed if failed is not None else ok(model_out)
-    else:
-        model = desc
+    impl = impl_call(_dyn_run, img, via, order)
+    model = _dyn_model(drv, le, is64, em, w.tags, img)
     # spec: every table announced by the tags, with exactly its entries
     spec_out = []
     wf = True
